@@ -109,16 +109,51 @@ func genRT(r *gen.R, thorough bool) (Cfg, []WStep) {
 	return cfg, prog
 }
 
-func execWrite(cfg Cfg, prog []WStep) *rtRun {
+// regenFor redraws the program for an adjusted configuration.
+func regenFor(r *gen.R, cfg Cfg, thorough bool) (Cfg, []WStep) {
+	max := 70000
+	if r.Chance(1, 8) {
+		max = 200 << 10
+	}
+	return cfg, genProgram(r, cfg, ProgOpts{MaxMsgs: 7, MaxSize: max})
+}
+
+func execWrite(cfg Cfg, prog []WStep) *rtRun { return execWriteVia(cfg, prog, false) }
+
+// execWriteVia runs the program; with viaUpgrade the server connection is built
+// by the real Upgrader.Upgrade over a Hijacker spy with ReadBufferSize and
+// WriteBufferSize 0, which makes the library reuse the hijacked bufio buffers.
+// It returns nil when that set-up handshake fails (counted as skipped by callers).
+func execWriteVia(cfg Cfg, prog []WStep, viaUpgrade bool) *rtRun {
 	run := &rtRun{prog: prog, pool: &TrackPool{}}
 	run.wconn = xport.New(nil)
-	c := newConn(run.wconn, cfg, run.pool, 0)
+	var c *ws.Conn
+	head := 0
+	if viaUpgrade {
+		w := newFakeRW(run.wconn, nil, 4096)
+		u := &ws.Upgrader{EnableCompression: cfg.Comp}
+		if cfg.Pool {
+			u.WriteBufferPool = run.pool.Front(0)
+		}
+		req := validRequest(someKey)
+		if cfg.Comp {
+			req.Header["Sec-Websocket-Extensions"] = []string{"permessage-deflate"}
+		}
+		var err error
+		c, err = u.Upgrade(w, req, nil)
+		if err != nil {
+			return nil
+		}
+		head = run.wconn.WrittenLen()
+	} else {
+		c = newConn(run.wconn, cfg, run.pool, 0)
+	}
 	run.w = NewWriter(c, cfg)
 	run.w.RunProgram(prog)
 	// terminating close by harness plumbing (WriteControl, see DESIGN 5)
 	err := c.WriteControl(ws.CloseMessage, ws.FormatCloseMessage(1000, "bye"), time.Time{})
 	run.w.Sent = append(run.w.Sent, Sent{Type: 8, Data: wire.MkClose(1000, "bye"), Step: len(prog), Err: err, Completed: err == nil})
-	run.written = run.wconn.Written()
+	run.written = run.wconn.Written()[head:]
 	return run
 }
 
@@ -154,8 +189,21 @@ func init() {
 func runC01(ctx *core.Ctx, out *core.Out) {
 	r := ctx.R
 	cfg, prog := genRT(r, ctx.Thorough())
-	run := execWrite(cfg, prog)
-	desc := rtCase{Cfg: cfg, Prog: progDesc(prog)}
+	via := cfg.Server && ctx.Idx%5 == 4
+	if via {
+		cfg.WB = 4096 // the hijacked bufio.Writer's buffer is reused
+		cfg, prog = regenFor(r, cfg, ctx.Thorough())
+	}
+	run := execWriteVia(cfg, prog, via)
+	desc := rtCase{Cfg: cfg, Prog: progDesc(prog), Upgrade: via}
+	if run == nil {
+		out.Inconcl("set-up handshake through Upgrader.Upgrade failed")
+		out.Eval(core.J(desc), false)
+		return
+	}
+	if via {
+		out.Count("connections_built_by_upgrade", 1)
+	}
 
 	fail := func(sig, what string, extra map[string]interface{}) {
 		d := map[string]interface{}{"case": desc}
@@ -369,10 +417,23 @@ func runC02(ctx *core.Ctx, out *core.Out) {
 	}
 	r := ctx.R
 	cfg, prog := genRT(r, ctx.Thorough())
+	via := cfg.Server && ctx.Idx%5 == 4
+	if via {
+		cfg.WB = 4096
+		cfg, prog = regenFor(r, cfg, ctx.Thorough())
+	}
 	tp.Reset()
-	run := execWrite(cfg, prog)
+	run := execWriteVia(cfg, prog, via)
 	drawn := tp.Drawn()
-	desc := rtCase{Cfg: cfg, Prog: progDesc(prog)}
+	desc := rtCase{Cfg: cfg, Prog: progDesc(prog), Upgrade: via}
+	if run == nil {
+		out.Inconcl("set-up handshake through Upgrader.Upgrade failed")
+		out.Eval(core.J(desc), false)
+		return
+	}
+	if via {
+		out.Count("connections_built_by_upgrade", 1)
+	}
 	judgeWire(out, "C02", desc, cfg, prog, run, drawn, ctx.Idx%997 == 0)
 }
 
